@@ -795,6 +795,13 @@ def check_cfg(run, lst, ob):
                 if seq_[j].pos == tgt[2] and si_ == tgt[1]:
                     return (f"missing-site:{origin}-ret:{corig}:"
                             "site-is-the-start-of-the-returning-patch")
+                if any(t_.patch == tok.patch and t_.kind == "call" and
+                       input_fn_of_label.get(t_.target) == tok.fn
+                       for t_ in seq_[j:k_ + 1]):
+                    # (F21) the returning patch itself calls its function:
+                    # its ret is only given an unknown return
+                    return (f"missing-site:{origin}-ret:{corig}:"
+                            "ret-behind-a-call-to-its-function-in-one-patch")
             return f"missing-site:{origin}-ret:{corig}"
         if what == "missing":
             if any(x[2] == "return" and x[:2] == e[:2] for x in extra):
@@ -811,6 +818,12 @@ def check_cfg(run, lst, ob):
         if tgt[0] == "pos":
             cs = [(si, t, ctgt) for (si, t, site, ctgt) in calls
                   if site == tgt[2] and si == tgt[1]]
+            if not cs:
+                # a call that ends exactly there and has no code behind it in
+                # the listing: its site is a zero-sized block at that place
+                cs = [(si, t, ctgt) for (si, t, site, ctgt) in calls
+                      if site is None and si == tgt[1] and
+                      t.pos + t.size == tgt[2]]
             if cs:
                 c, ctgt = cs[0][1], cs[0][2]
                 if ctgt[0] in ("proxydel", "extern"):
@@ -830,6 +843,18 @@ def check_cfg(run, lst, ob):
                     f25_sites.add((tok.fn, tgt))
                     return (f"extra-site:{origin}-ret:no-call-there:"
                             "patch-behind-call-to-its-own-function")
+                e_ = case["edits"][tok.patch] if 0 <= tok.patch < len(
+                    case["edits"]) else None
+                if e_ is not None and e_.get("op") == "rep" and \
+                        tok.fn is not None:
+                    blk_ = lst.block_info[e_["b"]]["blk"]
+                    if any(it.get("k") == "call" and
+                           input_fn_of_label.get(it.get("t")) == tok.fn
+                           for it in blk_["items"][e_["i"]:e_["i"] + e_["n"]]):
+                        # (F25) ... or the patch replaces such a call
+                        f25_sites.add((tok.fn, tgt))
+                        return (f"extra-site:{origin}-ret:no-call-there:"
+                                "patch-replacing-a-call-to-its-own-function")
                 if (tok.fn, tgt) in f25_sites:
                     # a later returning patch copies the function's return
                     # edges, the stale one included
@@ -1003,6 +1028,23 @@ def input_return_site_blocks(case, isa):
             fn = fn_of_label.get(last.get("t"))
             if fn is not None:
                 res.setdefault(fn, set()).add(nxt["id"])
+        # ... or that follow a block at whose end a patch with such a call
+        # is placed (the block is the call's return site until a later
+        # insertion at the same boundary takes over)
+        for b, nxt in zip(blocks, blocks[1:]):
+            if not b["code"]:
+                continue
+            n = len(b["items"])
+            for e in case["edits"]:
+                if e.get("b") != b["id"] or e.get("op") not in ("ins", "rep"):
+                    continue
+                if e["i"] + e.get("n", 0) != n:
+                    continue
+                for ln in (e.get("p") or {}).get("lines", []):
+                    if ln.get("k") == "call":
+                        fn = fn_of_label.get(ln.get("t"))
+                        if fn is not None:
+                            res.setdefault(fn, set()).add(nxt["id"])
     return res
 
 
